@@ -375,7 +375,7 @@ theorem b2mLoop_total (dvars : List MVar) (m2 : Mgr) (hI : Inv m2) (hz : ZoneOK 
         exact hfoa
       rw [hfoa']
       simp only
-      obtain ⟨hM1, hext1, hU1⟩ := umap_step (semB dvars m2.tbl) (Lb dvars m2)
+      obtain ⟨hM1, hext1, hU1, _⟩ := umap_step (semB dvars m2.tbl) (Lb dvars m2)
         (fun x α hx => semB_neg dvars m2.tbl x α hx) mdd umap hM hU u var succs hB r mdd1 hfoa'
       apply ih (pre ++ [u]) mdd1 _ hsplit' hM1 hfree1 (by rw [← hext1.vars]; exact hvars) hU1
       · intro x rx hl
